@@ -1,4 +1,5 @@
 """C13 -- encoded text is inert, strictly parseable LaTeX, ASCII-only when asked."""
+import zlib
 import unicodedata
 
 from .. import soups, px
@@ -124,8 +125,24 @@ def check(s, cfg, res, case):
         # before the policy is applied; it must not change the outcome)
         res.label('unknown-char-with-default-warning')
         check(s, cfg, res, dict(case, warn=True))
+    if setname == 'defaults' and not warn and 'via' not in case and \
+            zlib.crc32(s.encode('utf-8', 'surrogatepass')) % 4 == 0:
+        # the documented shorthand pylatexenc.latexencode.unicode_to_latex(s, **options) is the
+        # same encoder; it is called after a call with other options in the same process
+        res.label('via-module-level-shorthand')
+        check(s, cfg, res, dict(case, via='helper'))
     try:
-        out = encoder(cfg, warn).unicode_to_latex(s)
+        if case.get('via') == 'helper':
+            from pylatexenc import latexencode
+            other = 'keep' if policy != 'keep' else 'replace'
+            latexencode.unicode_to_latex('\u00e9 %', replacement_latex_protection='braces-all'
+                                         if prot != 'braces-all' else 'none',
+                                         unknown_char_policy=other, unknown_char_warning=False)
+            out = latexencode.unicode_to_latex(s, replacement_latex_protection=prot,
+                                               unknown_char_policy=policy,
+                                               unknown_char_warning=False)
+        else:
+            out = encoder(cfg, warn).unicode_to_latex(s)
         raised = False
     except ValueError as e:
         out, raised = None, True
